@@ -1209,10 +1209,12 @@ pub fn stateright_counts(ctx: &Ctx, h: &std::sync::Arc<Harness>) -> (u64, u64, u
 // harness definitions (DESIGN §4 C10)
 // ------------------------------------------------------------------------------------------
 
-const ATTRS: [S; 7] = ["abc", "ABD", "zzz9", "mmm", "ab", "toolong99", "a-b"];
+// (`zaa` / `aaz`, `za` / `az`: order hazards -- lexicographic and integer order differ, see
+// spaces::ORDER_VARIANTS)
+const ATTRS: [S; 9] = ["abc", "ABD", "zzz9", "mmm", "ab", "toolong99", "a-b", "zaa", "aaz"];
 const KEYS: [S; 5] = ["ca", "NU", "1a", "c1", "c"];
 const TKEYS: [S; 4] = ["h0", "K1", "ca", "0h"];
-const TAGS: [S; 6] = ["a", "B", "zz", "", "toolong99", "a*"];
+const TAGS: [S; 8] = ["a", "B", "zz", "", "toolong99", "a*", "za", "az"];
 const VARS: [S; 3] = ["valencia", "1996", "fonipa"];
 
 fn value_lists() -> Vec<Vec<S>> {
@@ -1227,6 +1229,7 @@ fn value_lists() -> Vec<Vec<S>> {
         vec!["x"],
         vec!["foo", "toolong999"],
         vec!["fo\0"],
+        vec!["zaa", "aaz"],
     ]
 }
 
@@ -1271,6 +1274,9 @@ fn id_menu(thorough: bool) -> Vec<Act> {
         // one list of three with a non-adjacent duplicate (sort/dedup order matters only there)
         m.push(Act::SetVariants(vec!["valencia", "1996", "valencia"]));
     }
+    // order hazards (lexicographic vs integer vs length-first order)
+    m.push(Act::SetVariants(vec!["zaaaa", "aaaaz"]));
+    m.push(Act::SetVariants(vec!["aaaaz", "bbbbbb", "zaaaa", "9aaa", "1zzz"]));
     m.push(Act::ClearVariants);
     #[cfg(feature = "likelysubtags")]
     {
